@@ -1177,6 +1177,9 @@ func (p *Printer) stmt(s *Stmt) {
 	var startRedirs int
 	if s.Cmd != nil {
 		startRedirs = p.command(s.Cmd, s.Redirs)
+		// A separator written for a statement nested in the command, such as
+		// the & in "{ foo & }", does not terminate this statement.
+		p.wroteSemi = false
 	}
 	p.incLevel()
 	for _, r := range s.Redirs[startRedirs:] {
